@@ -482,4 +482,6 @@ MANIFEST_ENTRY = {
 
 
 # thorough-tier floors: the quick-tier floors scaled by a conservative fraction of the size ratio of the two tiers
-MIN_COUNTERS["thorough"] = {k: int(v * 3) for k, v in MIN_COUNTERS["quick"].items()}
+# (counters of *distinct* things do not scale with the size and keep their quick-tier floor)
+_NONSCALING = ('programs_with_normalized_group_nontrivial', 'programs_with_simulation')
+MIN_COUNTERS["thorough"] = {k: (v if k in _NONSCALING else int(v * 3)) for k, v in MIN_COUNTERS["quick"].items()}
